@@ -170,3 +170,36 @@ Proof.
   - apply Forall_forall. intros l Hin. rewrite forallb_forall in Hl. apply Nat.ltb_lt. apply Hl; exact Hin.
   - apply closeb0_veq; exact Hc.
 Qed.
+
+(* ---- POMDP::Policy as a distribution over actions: getActionProbability is the indicator of the sampled
+   action, so over an action space containing it the probabilities sum to one *)
+Lemma qsum_map_seq_ind : forall (f : nat -> Q) n o, (o < n)%nat ->
+  (forall k, (k < n)%nat -> k <> o -> f k == 0) -> qsum (map f (seq 0 n)) == f o.
+Proof.
+  intros f n o Ho Hz.
+  replace n with (o + Datatypes.S (n - o - 1))%nat by lia.
+  rewrite seq_app, map_app, qsum_app. change (0 + o)%nat with o. cbn [seq map qsum].
+  rewrite (qsum_map_zero _ f (seq 0 o)) by (intros k Hk; apply in_seq in Hk; apply Hz; lia).
+  rewrite (qsum_map_zero _ f (seq (Datatypes.S o) (n - o - 1))) by (intros k Hk; apply in_seq in Hk; apply Hz; lia).
+  ring.
+Qed.
+
+Lemma indicator_sum : forall A a', (a' < A)%nat ->
+  qsum (map (fun a => if Nat.eqb a a' then 1 else 0) (seq 0 A)) == 1.
+Proof.
+  intros A a' H.
+  rewrite (qsum_map_seq_ind (fun a => if Nat.eqb a a' then 1 else 0) A a' H); [rewrite Nat.eqb_refl; reflexivity|].
+  intros k _ Hk. destruct (Nat.eqb_spec k a'); [congruence| reflexivity].
+Qed.
+
+Theorem policy_prob_is_distribution_lemma : forall vf h b A a' id,
+  policy_first vf h b = Some (a', id) -> (a' < A)%nat ->
+  (forall a, policy_prob vf h b a == 1 \/ policy_prob vf h b a == 0) /\
+  policy_prob vf h b a' == 1 /\
+  qsum (map (policy_prob vf h b) (seq 0 A)) == 1.
+Proof.
+  intros vf h b A a' id Hf Ha. unfold policy_prob. rewrite Hf. split; [| split].
+  - intros a. destruct (Nat.eqb a a'); [left| right]; reflexivity.
+  - rewrite Nat.eqb_refl. reflexivity.
+  - apply indicator_sum. exact Ha.
+Qed.
